@@ -170,15 +170,22 @@ def md009(m, cfg):
 
 def md010(m, cfg):
     code = cfg.get("code_blocks", True)
-    exp = []
+    exp, abstain = [], set()
+    if not code:
+        # is the tab that *makes* an indented code block "within" it?  not specified
+        for b in m.blocks:
+            if b["kind"] == "code_block":
+                abstain |= _span(b)
     for i, l in enumerate(m.lines):
         if "\t" in l and (code or (i + 1) not in m.code_lines):
             exp.append({i + 1})
-    return exp, set()
+    return exp, abstain
 
 
 def md012(m, cfg):
     mx = cfg.get("maximum", 1)
+    if not m.blocks:
+        return [], ALL  # a document of blank lines only
     exp, abstain = [], set(m.html_lines)
     n = len(m.lines)
     i = 1
@@ -308,7 +315,7 @@ def md022(m, cfg):
             k += 1
             ln += 1
         if ln > len(m.lines):
-            pass  # the heading is the last element
+            abstain |= _span(h)  # the heading is the last element: the page says nothing about the end of the document
         elif k < below:
             need.append("below")
         elif k > below:
@@ -333,13 +340,18 @@ def md023(m, cfg):
 def md024(m, cfg):
     if cfg.get("siblings_only") or cfg.get("allow_different_nesting"):
         return [], ALL
-    seen = set()
-    exp = []
+    seen = {}
+    exp, abstain = [], set()
     for h in m.headings():
+        raw = "\n".join(m.lines[h["start"] - 1 : h["end"]])
+        raw = re.sub(r"^[ \t>]*#{1,6}[ \t]+|\n[ \t]*[=-]+[ \t]*$", "", raw)
         if h["text"] in seen:
-            exp.append(_span(h))
-        seen.add(h["text"])
-    return exp, set()
+            if seen[h["text"]] != raw:
+                abstain |= _span(h)  # same text, different spelling of whitespace: "strict comparison" is not specified further
+            else:
+                exp.append(_span(h))
+        seen.setdefault(h["text"], raw)
+    return exp, abstain
 
 
 def md025(m, cfg):
@@ -406,7 +418,10 @@ def md032(m, cfg):
         bad = False
         if m.exists(b["start"] - 1) and not m.blank(b["start"] - 1):
             bad = True
-        if m.exists(b["end"] + 1) and not m.blank(b["end"] + 1):
+        end = b["end"]
+        while end > b["start"] and m.blank(end):
+            end -= 1  # the token's line range may include trailing blank lines
+        if m.exists(end + 1) and not m.blank(end + 1):
             bad = True
         if bad:
             exp.append(_span(b) | {b["end"] + 1})
